@@ -15,11 +15,33 @@
    2b21c7f (head switch in one batch), 3eba51b (side chain checks the signature),
    599b875 (verifyAllSideChainBlocks stores each fork block once it is verified),
    0702a5f (a block already canonical at or below the head does not become the head again). *)
-From VF.C11 Require Import Model ProofsA ProofsB ProofsC ProofsD ProofsE ProofsF ProofsG ProofsH ProofsI ProofsJ ProofsK ProofsL ProofsM.
+From VF.C11 Require Import Model ProofsA ProofsB ProofsC ProofsD ProofsE ProofsF ProofsG ProofsH ProofsI ProofsJ ProofsK ProofsL ProofsM Bridge.
+From VF.gen Require Import C11Calls.
 Local Open Scope N_scope.
 
 Definition wf (t : tree) (g : block) : Prop :=
   info t (bid g) = Some g /\ bnum g = 0 /\ info t 0 = None /\ good_block g = true.
+
+(* ---- bridge: the atomic writes the model assumes are the batch operations of the code ------ *)
+
+(* The inventory of batch operations (NewBatch / Write / Reset / ValueSize) in
+   InsertChain, insertChain, insertSidechain, verifyAllSideChainBlocks,
+   WriteBlockWithoutState, WriteBlockWithState, reorg, stageHead, adoptHead, insert,
+   updateHeadBlock is regenerated from /repo's core/blockchain.go on every run: a
+   block is written by one Write, the head switch (receipts, reorg's canonical
+   entries, lookups and lookup deletions, head markers) by one Write; there is no
+   Reset and no ValueSize test - no size-dependent flush - anywhere on that path. *)
+Theorem C11_batch_call_inventory : c11_calls = c11_expected_calls.
+Proof. exact batch_call_inventory. Qed.
+Print Assumptions C11_batch_call_inventory.
+
+(* [head_switch_one_write_stmt] (Bridge.v): no Reset, no ValueSize and no missing function
+   anywhere in the inventory; no Write in reorg, stageHead, adoptHead, insertChain,
+   insertSidechain, verifyAllSideChainBlocks; one Write in WriteBlockWithoutState; three in
+   WriteBlockWithState (block batch, receipts-only early return, head switch) on two batches *)
+Theorem C11_head_switch_is_one_write : head_switch_one_write_stmt.
+Proof. exact head_switch_is_one_write. Qed.
+Print Assumptions C11_head_switch_is_one_write.
 
 (* ---- imports ---------------------------------------------------------------------------------- *)
 
